@@ -485,7 +485,9 @@ def _run(ctx, case, net):
                 # mechanism: the answer to one of this node's EARLIER questions that had timed out
                 # (-1) arrives late and is taken for the answer to the current one - replies carry
                 # nothing that ties them to a question
-                late = any(v0 == -1 and exp0 == v for (_, v0, exp0) in r["conc"][:ci_])
+                # (an earlier question whose own call did not get its true answer - it timed out, or it
+                # was itself given an even older answer - leaves that answer in flight)
+                late = any(v0 != exp0 and exp0 == v for (_, v0, exp0) in r["conc"][:ci_])
                 ctx.violation("lookup/concurrent" + ("/late-answer-to-an-earlier-question" if late else ""),
                               "ID %d: lookup_address(%d) while other nodes were asking too "
                               "returned %r, the master's table says %r (-1 = no answer would be acceptable); its "
